@@ -318,6 +318,16 @@ def make_namesake(h, name):
     return twin
 
 
+def make_decoy_unit(h, name):
+    """A module called `name` made HERE (same qualified name as the builder's module of that name) with other ports and other contents: a unit cell
+    that went through a built-in generator earlier in the process (C19)."""
+    decoy = h.Module(name=name)
+    decoy.a, decoy.b, decoy.zz = h.Ports(3)
+    decoy.r = h.primitives.IdealResistor(r=1)(p=decoy.a, n=decoy.b)
+    decoy.r2 = h.primitives.IdealResistor(r=1)(p=decoy.zz, n=decoy.b)
+    return decoy
+
+
 def build(h, D, style="proc"):
     return Builder(h, D, style).build()
 
